@@ -179,16 +179,120 @@ def value_module(name, ann_methods, arg_sig, build_arg, pre, prelude="", extra_s
     # isinstance does not honour the metaclass hooks these types rely on, so this part is not symbolic)
     L.append("CORPUS = [" + ", ".join(warm) + ", object(), None, 0, 1, 2, 3, 'a', 'ab', 'abc', 'b', 'xy', 'x', '', (), [], {}, (1, 'a'), (1, 2), [1], ['a'], "
              "{'a': 1}, {'a': 1, 'b': 2}, {'b': 1}, 1.5, True, (True,), (1, (1, 'a')), [[1]], {1: 'a'}]")
+    L.append("from collections import namedtuple as _nt2, OrderedDict as _OD")
+    L.append("class _MyTuple(tuple): pass\nclass _MyList(list): pass\nclass _MyStr(str): pass\nclass _MyInt(int): pass\n_NT = _nt2('_NT', 'a b')")
+    L.append("CORPUS += [_MyTuple((1, 'a')), _MyTuple((1, 2)), _NT(1, 'a'), _NT(1, 2), (_NT(1, 2),), (_MyTuple((1, 2)),), (1, _NT(1, 'a')), (1, _MyTuple((1, 'a'))), "
+             "_MyList([1]), _MyList(['a']), _MyStr('ab'), _MyStr('xab'), _MyStr('ay'), _MyInt(1), _MyInt(3), _OD(a=1), _OD(a=1, b=2), ((1, 2),), ((1, 'a'),), (True, 'a')]")
     L.append("NATIVE_DISAGREE = [(repr(v), str(T)) for v in CORPUS for T, mean in ANN if bool(isinstance(v, T)) != bool(mean(v))]  # at import: native")
+    L.append("""def _dispatch_vs_isinstance():
+    bad = []
+    for v in CORPUS:
+        got = _outcome(lambda: F(v))
+        inst = [i for i, (T, mean) in enumerate(ANN) if isinstance(v, T)]
+        if len(inst) == 1 and got != inst[0]:
+            bad.append((repr(v), got, inst))
+        if not inst and (got in range(len(ANN)) or got == 'AMB'):
+            bad.append((repr(v), got, inst))
+    return bad
+NATIVE_DISPATCH_DISAGREE = _dispatch_vs_isinstance()  # at import: native, incl. instances of subclasses of the bounds""")
     L.append('''def check_native_corpus() -> bool:
     """
     post: _
     """
-    return not NATIVE_DISAGREE''')
+    return not NATIVE_DISAGREE and not NATIVE_DISPATCH_DISAGREE''')
     for i in range(k):
         L.append(f'''def reach_m{i}({arg_sig}) -> bool:
     """
 {doc}    post: not _
     """
     return _outcome(lambda: F(_mk({names}))) == {i}''')
+    return "\n\n".join(L) + "\n"
+
+
+def entry_guard_module(variant):
+    """C01, value level: every method body re-checks its own documented condition on the arguments it received
+    (positional, keyword-only, reached directly, through recurse and through call_next)."""
+    L = [SPEC_LIB, "BAD = []", "f = Ovld()"]
+    if variant == "kwonly_literal":
+        L.append('''def m0(x: int, *, mode: Literal["double"]):
+    if not (isinstance(x, int) and mode == "double"):
+        BAD.append(("m0", x, mode))
+    return ("double", x)''')
+        L.append('''def m1(x: int, *, mode: Literal["triple", "quad"]):
+    if not (isinstance(x, int) and mode in ("triple", "quad")):
+        BAD.append(("m1", x, mode))
+    return (mode, x)''')
+        L.append('''def m2(x: int, *, mode: str):
+    if not (isinstance(x, int) and isinstance(mode, str)):
+        BAD.append(("m2", x, mode))
+    return ("other", recurse(x - 1, mode="double") if x == 5 else x)''')
+        L.append("for _m in (m0, m1, m2):\n    f.register(_m)")
+        L.append("F = f.dispatch")
+        L.append("for _x in (0, 5, True):\n    for _md in ('double', 'triple', 'quad', 'zz', ''):\n        _outcome(lambda: F(_x, mode=_md))")
+        L.append('''def check_entries(x: int, k: int, s: str) -> bool:
+    """
+    pre: len(s) <= 2
+    post: _
+    """
+    del BAD[:]
+    mode = ("double", "triple", "quad", s)[k % 4]
+    r = _outcome(lambda: F(x, mode=mode))
+    return not BAD''')
+    elif variant == "kwonly_dependent":
+        L.append("def _big(v):\n    PRED.append((int, v))\n    return v > 10")
+        L.append('''def m0(x: int, *, k: Dependent[int, _big]):
+    if not (isinstance(k, int) and k > 10):
+        BAD.append(("m0", x, k))
+    return ("big", call_next(x, k=k))''')
+        L.append('''def m1(x: int, *, k: int):
+    if not isinstance(k, int):
+        BAD.append(("m1", x, k))
+    return ("int", recurse(x, k=k + 20) if 0 <= k < 3 else k)''')
+        L.append('''def m2(x: object, *, k: object = None):
+    return ("obj", k)''')
+        L.append("f.register(m0)\nf.register(m1)\nf.register(m2, priority=-1)")
+        L.append("F = f.dispatch")
+        L.append("for _x in (0, 'a'):\n    for _k in (0, 1, 11, 30, 'z', None):\n        _outcome(lambda: F(_x, k=_k))\n    _outcome(lambda: F(_x))")
+        L.append('''def check_entries(x: int, k: int) -> bool:
+    """
+    post: _
+    """
+    del BAD[:]
+    r = _outcome(lambda: F(x, k=k))
+    return not BAD and _pred_ok()''')
+    elif variant == "positional_mix":
+        L.append("def _even(v):\n    PRED.append((int, v))\n    return v % 2 == 0")
+        L.append('''def m0(x: Literal[0, 1], y: Dependent[int, _even]):
+    if not (x in (0, 1) and isinstance(y, int) and y % 2 == 0):
+        BAD.append(("m0", x, y))
+    return ("m0", recurse(x + 2, y + 1))''')
+        L.append('''def m1(x: int, y: Literal[3]):
+    if not (isinstance(x, int) and y == 3):
+        BAD.append(("m1", x, y))
+    return ("m1", call_next(x, y))''')
+        L.append('''def m2(x: int, y: int):
+    if not (isinstance(x, int) and isinstance(y, int)):
+        BAD.append(("m2", x, y))
+    return ("m2", x, y)''')
+        L.append('''def m3(x: tuple[int, str], y: object):
+    if not (isinstance(x, tuple) and len(x) == 2 and isinstance(x[0], int) and isinstance(x[1], str)):
+        BAD.append(("m3", x, y))
+    return ("m3", recurse(x[0], len(x[1])))''')
+        L.append("f.register(m0)\nf.register(m1)\nf.register(m2, priority=-1)\nf.register(m3)")
+        L.append("F = f.dispatch")
+        L.append("for _x in (0, 1, 2, 3, (1, 'a'), (1, 2), 'q'):\n    for _y in (0, 1, 2, 3, 4, 'z'):\n        _outcome(lambda: F(_x, _y))")
+        L.append('''def check_entries(x: int, y: int, s: str, k: int) -> bool:
+    """
+    pre: len(s) <= 2
+    post: _
+    """
+    del BAD[:]
+    a = (x, (x, s), (x, y))[k % 3]
+    r = _outcome(lambda: F(a, y))
+    return not BAD and _pred_ok()''')
+    L.append('''def reach_some_method(x: int) -> bool:
+    """
+    post: not _
+    """
+    return True''')
     return "\n\n".join(L) + "\n"
